@@ -13,6 +13,7 @@ func kernPairWF(k *KernPair) bool {
 
 //@ sweep C01 read.go
 //@ sweep C10 write.go
+//@ maporder C17 write.go afm.go
 
 //@ func Read
 //@ requires fd != nil
